@@ -463,8 +463,15 @@ def d6(chk, prog):
 
 def d7(chk, prog):
     chk.clause("D7", "by_ranges / iter_slices: one result per query range, in order, also for a chromosome missing from the queried table")
-    lits = [("a", 0, 10), ("a", 10, 30), ("a", 25, 40), ("a", 50, 60), ("c", 5, 15)]
-    queries = [("a", 5, 12), ("a", 28, 55), ("b", 0, 10), ("b", 20, 30), ("b", 40, 50), ("c", 0, 5), ("a", 70, 80)]
+    for layout, lits, queries in (("overlapping rows", [("a", 0, 10), ("a", 10, 30), ("a", 25, 40), ("a", 50, 60), ("c", 5, 15)],
+                                   [("a", 5, 12), ("a", 28, 55), ("b", 0, 10), ("b", 20, 30), ("b", 40, 50), ("c", 0, 5), ("a", 70, 80)]),
+                                  # rows nested inside a long one: the last row (by start) ends before the long row does, ends are not monotone
+                                  ("nested rows", [("a", 0, 100), ("a", 10, 20), ("a", 30, 35), ("c", 0, 50), ("c", 5, 15)],
+                                   [("a", 12, 18), ("a", 40, 60), ("a", 33, 99), ("a", 100, 120), ("a", 0, 5), ("c", 20, 30), ("c", 50, 60)])):
+        _d7_layout(chk, prog, layout, lits, queries)
+
+
+def _d7_layout(chk, prog, layout, lits, queries):
 
     def mk(rows, tag, labels=None):
         df = DF({"chromosome": Vec([r[0] for r in rows], aligned=True), "start": Vec([r[1] for r in rows], aligned=True), "end": Vec([r[2] for r in rows], aligned=True),
@@ -473,7 +480,7 @@ def d7(chk, prog):
         df.labels = labels if labels is not None else list(range(len(rows)))
         return df
     fi = prog.fn("skgenome.intersect.by_ranges")
-    tb = Table(chk, "one-per-query", "by_ranges on literal tables: (query row, overlapping / contained rows) per query range; chromosomes b (absent from the table) and c; modes x keep_empty", fi.loc(), fi.qn)
+    tb = Table(chk, "one-per-query", f"by_ranges on literal tables ({layout}): (query row, overlapping / contained rows) per query range; chromosomes b (absent from the table) and c; modes x keep_empty", fi.loc(), fi.qn)
     for mode, keep in itertools.product(["outer", "inner", "trim"], [True, False]):
         W.reset()
         t, o = mk(lits, "t"), mk(queries, "q")
@@ -502,10 +509,10 @@ def d7(chk, prog):
         got = []
         for brow, sub in out:
             got.append((getattr(brow, "id", None), [(a, int(T(b).cval()), int(T(e_).cval())) for a, b, e_ in zip(sub.cols["id"].v, sub.cols["start"].v, sub.cols["end"].v)] if isinstance(sub, DF) else list(sub)))
-        tb.cell(got == want, dict(mode=mode, keep_empty=keep, got=got, want=want))
+        tb.cell(got == want, dict(layout=layout, mode=mode, keep_empty=keep, got=got, want=want))
     tb.done("by_ranges does not give one (query, rows) pair per query range in order (a chromosome missing from the table must yield empty results when keep_empty)")
     fs = prog.fn("skgenome.intersect.iter_slices")
-    tb2 = Table(chk, "one-per-query", "iter_slices on literal tables with index labels that are not positions: label arrays per query range", fs.loc(), fs.qn)
+    tb2 = Table(chk, "one-per-query", f"iter_slices on literal tables ({layout}) with index labels that are not positions: label arrays per query range", fs.loc(), fs.qn)
     labels = [40, 31, 22, 13, 4]
     for mode, keep in itertools.product(["outer", "inner"], [True, False]):
         W.reset()
@@ -530,7 +537,7 @@ def d7(chk, prog):
                     hit = [labels[i] for i, r in enumerate(lits) if r[0] == c and r[2] > q[1] and r[1] < q[2]]
                 if keep or hit:
                     want.append(hit)
-        tb2.cell(out == want, dict(mode=mode, keep_empty=keep, got=out, want=want))
+        tb2.cell(out == want, dict(layout=layout, mode=mode, keep_empty=keep, got=out, want=want))
     tb2.done("iter_slices does not yield the index labels of each query range's rows, one array per query range")
 
 
